@@ -65,6 +65,7 @@ MUTANTS["C01"] = [
     ("huawei-order-undo-mtu-after-everything", "annet/rulebook/texts/huawei.order", "    ~\n    poe\n", "    ~\n    poe\n    undo mtu  %order_reverse\n"),
     ("nokia-ordered-rules-get-the-default-diff", "annet/vendors/library/nokia.py", '        return "juniper.ordered_diff" if order else "juniper.default_diff"', '        return "juniper.default_diff"'),
     ("permanent-row-without-children-resent", "annet/annlib/rulebook/common.py", '        if not diff[Op.REMOVED][0]["children"]:\n            return\n        # Если у него есть потомки', '        # Если у него есть потомки'),
+    ("inherited-globals-dropped-below-a-block-with-its-own", "annet/annlib/patching.py", '    global_children = merge_dicts(global_children, rules["global"])', '    global_children = global_children or rules["global"]'),
 ]
 
 MUTANTS["C01"] += [
